@@ -482,6 +482,7 @@ func (o *c20Origin) ServeHTTP(w http.ResponseWriter, r *http.Request) {
 	http.ServeContent(&dribbleWriter{ResponseWriter: w}, r, filepath.Base(r.URL.Path), time.Time{}, bytes.NewReader(data)) // short reads, as over a real network
 }
 
+var reSyncStats = regexp.MustCompile(`matched=\S+ chunks=\S+ ?`)
 var reMatched = regexp.MustCompile(`(\d+)/(\d+) blocks matched`)
 var reChunks = regexp.MustCompile(`need (\d+) chunks`)
 
@@ -542,8 +543,8 @@ func cliMakesync(path string, kb int) string {
 		}
 		m := stdout.String()
 		switch {
-		case !strings.Contains(m, "Failed to makesync archive, "):
-			return "panic:makesync:exit_without_message:" + strings.ReplaceAll(trunc(err.Error(), 40), " ", "_")
+		case strings.Contains(stderr.String(), "goroutine "):
+			return "panic:makesync:exit_with_a_stack_trace:" + strings.ReplaceAll(trunc(err.Error(), 40), " ", "_")
 		case strings.Contains(m, "clustered"):
 			return "err:notclustered"
 		case strings.Contains(m, "magic") || strings.Contains(m, "spec version") || strings.Contains(m, "header"):
@@ -799,17 +800,23 @@ func SyncCLIChild(args []string) {
 		a = append(a, "--dry-run")
 	}
 	cmd := exec.Command(os.Getenv("VERIF_CLI"), a...)
-	var stdout bytes.Buffer
+	var stdout, stderr bytes.Buffer
 	cmd.Stdout = &stdout
-	cmd.Stderr = os.Stderr // a panic's trace reaches the parent
+	cmd.Stderr = &stderr
 	err := cmd.Run()
 	txt := stdout.String()
 	if err != nil {
-		if i := strings.LastIndex(txt, "Failed to sync archive, "); i >= 0 {
-			fmt.Println("err:" + strings.TrimSpace(txt[i+len("Failed to sync archive, "):]))
-			return
+		if strings.Contains(stderr.String(), "goroutine ") || strings.Contains(stderr.String(), "panic:") || strings.Contains(stderr.String(), "fatal error:") {
+			os.Stderr.Write(stderr.Bytes()) // a panic's trace reaches the parent, which classifies it
+			os.Exit(2)
 		}
-		os.Exit(2) // died without reporting: the parent classifies it from stderr
+		// a failure the command reported (whatever its wording) and turned into a non-zero exit status
+		last := strings.TrimSpace(txt)
+		if i := strings.LastIndex(last, "\n"); i >= 0 {
+			last = last[i+1:]
+		}
+		fmt.Println("err:" + last)
+		return
 	}
 	m := reMatched.FindStringSubmatch(txt)
 	c := reChunks.FindStringSubmatch(txt)
@@ -824,8 +831,22 @@ func (C20) Agree(line, goOut, modelOut string) bool {
 	if i := strings.Index(goOut, " # "); i >= 0 {
 		goOut = goOut[:i]
 	}
+	// the figures sync prints about its own progress ("h/n blocks matched", "need c chunks") are read off its status
+	// lines; when their wording changes they are unknown (`?`), and the comparison goes by what the property is
+	// about: outcome, requests, resulting file
+	unknownStats := strings.Contains(goOut, "matched=?/? chunks=?")
+	if unknownStats {
+		goOut = reSyncStats.ReplaceAllString(goOut, "")
+	}
 	for _, alt := range strings.Split(modelOut, " || ") {
+		if unknownStats {
+			alt = reSyncStats.ReplaceAllString(alt, "")
+		}
 		if goOut == alt {
+			return true
+		}
+		// why makesync turns an input away (and in what words) is not the point: that it does, is
+		if (strings.HasPrefix(goOut, "err:") && strings.HasPrefix(alt, "err:")) || (strings.HasPrefix(goOut, "nosync:") && strings.HasPrefix(alt, "nosync:")) {
 			return true
 		}
 	}
